@@ -211,6 +211,18 @@ def _eval(case):
         o = observe.observe(script, "ansi", provider=prov, level="columns")
     if "exception" in o:
         return {"script": script, "bad": "exception", "obs": o}
+    r = _judge(case, script, o)
+    if K and case["meta"] != "lca":
+        # the other bundled provider, loaded with the same knowledge (in-memory sqlite, one attached database per schema), must give the same answer
+        from vmc import c13
+
+        o2 = observe.observe(script, "ansi", provider=c13.make_provider("sqlalchemy", K), level="columns")
+        if o2 != o:
+            r["provider_diff"] = {"dummy": {k: o.get(k) for k in ("pairs", "source", "target", "intermediate")}, "sqlalchemy": {k: o2.get(k) for k in ("pairs", "source", "target", "intermediate", "exception")}}
+    return r
+
+
+def _judge(case, script, o):
     exp_pairs, exp_edges = reference(case)
     got_pairs = {tuple(p) for p in o["pairs"]}
     got_edges = set()
@@ -261,8 +273,8 @@ def run(tier: str, opts: dict) -> int:
         if key not in seen:
             seen.add(key)
             cases.append(c)
-    res = pmap(_eval, cases, chunk=8)
     regen = opts.get("regen_pins")
+    res = pmap(_eval, cases, chunk=8)
     new_pins, unclassified = {}, []
     nontrivial = 0
     shapes = {}
@@ -270,6 +282,8 @@ def run(tier: str, opts: dict) -> int:
         shapes[c["shape"]] = shapes.get(c["shape"], 0) + 1
         if r.get("n", 0) >= 2 or not r.get("ok"):
             nontrivial += 1
+        if r.get("provider_diff") and not regen:
+            rep.violation("provider-kinds-disagree", {"script": r["script"], "case": c}, r["provider_diff"])
         if r.get("ok"):
             continue
         key = f"{c['meta']}|{r['script']}"
@@ -311,6 +325,9 @@ def replay(body: dict, opts: dict) -> int:
     c = body["case"]["case"]
     r = _eval(c)
     print(json.dumps(r, indent=1)[:3500])
+    if r.get("provider_diff"):
+        print(f"VIOLATION property=C04 replay={opts.get('path', '<replayed>')}")
+        return 1
     if r.get("ok"):
         print("OK on replay")
         return 0
